@@ -423,7 +423,10 @@ func mustPassFrom(f *ssa.Function, start *ssa.BasicBlock, startIdx int, targets 
 	init := make([]byte, ng+len(corrIdx))
 	seen := map[pathState]bool{}
 	queue := []*node{{st: pathState{start, string(init)}}}
-	seen[queue[0].st] = true
+	if startIdx == 0 {
+		// a search that starts mid-block has not covered the block's head yet
+		seen[queue[0].st] = true
+	}
 	first := true
 	for len(queue) > 0 {
 		n := queue[0]
